@@ -535,6 +535,15 @@ def verdict(case, res):
                 return f"a pair (existing {e['id']}, new {u['id']}) is missing from compare_two_records/find_matches/realtime output"
             if not same_score(c, f) or not same_tf(c, f):
                 return f"compare_two_records and find_matches_to_new_records disagree on (existing {e['id']}, new record {u['vals']}) [tf_mode {case['tf_mode']}]: {fmt(c)} vs {fmt(f)}"
+            # which term frequency a record gets is not free: the registered lookup if there is one for the column, else the
+            # relative frequency in the input data; NULL for a value the table does not list (independent oracle expected_tf)
+            for got, nm in ((c, "compare_two_records"), (f, "find_matches_to_new_records")):
+                for side, rec in (("tfl", e), ("tfr", u)):
+                    want = expected_tf(case, rec["vals"])
+                    for col in tf_columns(case):
+                        if not core.close(got[side][col], want[col], 1e-12):
+                            return (f"{nm} gave record {rec['id']} (value {rec['vals'][col]!r}) the term frequency {got[side][col]} for column {col}; "
+                                    f"the {'registered lookup' if col in (case.get('tf_lookup') or {}) and case['tf_mode'] in ('registered', 'register_after_predict') else 'term frequency table of the data'} says {want[col]} [tf_mode {case['tf_mode']}]")
             if same_tf(c, q) and not same_score(c, q):
                 return f"realtime.compare_records disagrees with compare_two_records on (existing {e['id']}, new {u['id']}) given the same term frequencies: {fmt(q)} vs {fmt(c)}"
             gam, w = oracle(case, e["vals"], u["vals"], c["tfl"], c["tfr"])
@@ -952,6 +961,7 @@ def to_tuple(r):
 CLASSES = [
     ("compare_two_records disagrees with predict", "compare_two_records != predict"),
     ("compare_two_records (two dicts)", "compare_two_records != predict"),
+    ("the term frequency", "a record gets the wrong term frequency"),
     ("realtime.compare_records disagrees", "realtime != predict/compare_two_records"),
     ("find_matches_to_new_records disagrees with predict", "find_matches != predict"),
     ("compare_two_records and find_matches_to_new_records disagree", "compare_two_records != find_matches on new record"),
